@@ -26,10 +26,19 @@ type Config struct {
 	Trace      bool
 	Stubs      map[string]string // extra function stubs: full name -> kind ("noop", "poison")
 	ExtraAssume string
+	Guards       []Guard
 	NoIfConv     bool
 	NoWrapQuery  bool
 	SampleModels int                  // number of completed-path input models to record
 	Exclude      map[string][]Exclusion // obligation id (or prefix ending in *) -> known input classes
+}
+
+// Guard declares that fields of a struct type may only be accessed while a mutex field of the same object is held.
+type Guard struct {
+	Type   string   // struct type name (unqualified)
+	Fields []string // guarded field names
+	Mutex  string   // mutex field name
+	Exempt []string // function names (unqualified) that may access without the lock (constructors)
 }
 
 // Exclusion is a known-finding input class, an SMT-LIB predicate over in_<name> variables.
@@ -82,6 +91,8 @@ type Result struct {
 	WrapElided   int                 `json:"wrap_elided"`
 	Samples      []map[string]interface{} `json:"samples,omitempty"`
 	PathModels   []map[string]string `json:"path_models,omitempty"`
+	GuardAccessors []string          `json:"guard_accessors,omitempty"`
+	GuardChecks  int                 `json:"guard_checks"`
 }
 
 // ---------------------------------------------------------------------------
@@ -200,6 +211,7 @@ type Interp struct {
 	aborted bool
 	entryDepth int
 	wrapKnown map[wrapKey]bool
+	freshN    int
 	pdoms map[*ssa.Function]*pdomInfo
 	noConv map[*ssa.If]int
 }
